@@ -439,6 +439,7 @@ func (c *Ctx) ScanOn(text string) *ScanOutcome {
 			sr.RetVal = res.Val(ret.Results[0])
 		}
 		// walk back through the dominator chain for the closest stores
+		visitedBack := map[*ssa.BasicBlock]bool{}
 		b := ret.Block()
 		idx := len(b.Instrs) - 1
 		for b != nil {
@@ -474,8 +475,22 @@ func (c *Ctx) ScanOn(text string) *ScanOutcome {
 					}
 				}
 			}
-			b = b.Idom()
+			// the block control came from: the one predecessor whose edge the fold left executable, else the dominator
+			var only *ssa.BasicBlock
+			n := 0
+			for _, p := range b.Preds {
+				if res.Reach[p] && res.Edge[[2]int{p.Index, b.Index}] {
+					only = p
+					n++
+				}
+			}
+			if n == 1 && !visitedBack[only] {
+				b = only
+			} else {
+				b = b.Idom()
+			}
 			if b != nil {
+				visitedBack[b] = true
 				idx = len(b.Instrs) - 1
 			}
 		}
